@@ -444,6 +444,7 @@ Verdict runHistory(const History& h, Stats& st) {
             }
             if (notice) {
                 ++st.notices;
+                if (out.find("There is a new", out.find("There is a new") + 1) != std::string::npos) { v = {"notice_repeated_within_72h", at + ": two notices printed by one invocation"}; break; }
                 // (3) only for a strictly newer, parseable version, and the notice names it
                 size_t p1 = out.find("version of Bloch, ");
                 size_t p2 = out.find(". You currently have ");
